@@ -38,6 +38,10 @@ sys.path.insert(0, HARNESS)
 if REPO_SRC not in sys.path:
     sys.path.insert(0, REPO_SRC)
 os.environ.setdefault("WHOOSH_VERIF", "1")
+# whoosh's own sources contain invalid escape sequences in doc strings; keep the check output clean
+import warnings  # noqa: E402
+warnings.filterwarnings("ignore", category=SyntaxWarning)
+os.environ.setdefault("PYTHONWARNINGS", "ignore::SyntaxWarning")
 
 
 class InfraError(Exception):
